@@ -56,6 +56,10 @@ func (i *documentIndex) UpdateIndex(oplog ipfslog.Log, _ []ipfslog.Entry) error 
 	entries := oplog.Values().Slice()
 	size := len(entries)
 
+	// from scratch: a load with a limit may have cut the log down, what the dropped entries
+	// had put must not stay
+	i.index = map[string][]byte{}
+
 	handled := map[string]struct{}{}
 
 	for idx := range entries {
